@@ -103,11 +103,11 @@ func Division(left, right value.Value) error {
 			lv.Value /= time.Duration(rv.Value)
 		case value.FloatType: // RTIME /= FLOAT
 			rv := value.Unwrap[*value.Float](right)
-			// divisor is truncated to INTEGER so that the fraction less than 1 is also treated as zero
-			if time.Duration(rv.Value) == 0 {
+			if rv.Value == 0 || rv.IsNAN {
 				return errors.WithStack(fmt.Errorf("division by zero"))
 			}
-			lv.Value /= time.Duration(rv.Value)
+			// divide by the divisor, not by the divisor truncated to INTEGER
+			lv.Value = time.Duration(float64(lv.Value) / rv.Value)
 		default:
 			return errors.WithStack(fmt.Errorf("invalid division RTIME type, got %s", right.Type()))
 		}
